@@ -67,6 +67,7 @@ func runC19(p *Prog, r *Report) {
 				return "", false
 			}
 			name := ""
+			other = stripConv(other)
 			if other == ssa.Value(variable) {
 				name = "eq(" + cs + ")"
 			} else if c, ok := other.(*ssa.Call); ok && ccIs(c.Common(), "strings", "TrimPrefix") && c.Common().Args[0] == ssa.Value(variable) && cs == "" {
@@ -274,9 +275,25 @@ func c19Header(p *Prog, r *Report, fn *ssa.Function, mc *ssa.MakeClosure, ret *s
 	what += " " + FName(fn)
 	// the header name handed to the constructor is TrimPrefix(variable, "request.header.")
 	okName := false
-	if c, ok := stripConv(ReturnOperand(ret, 0)).(*ssa.Call); ok && len(c.Common().Args) == 1 {
-		if tc, ok := stripConv(c.Common().Args[0]).(*ssa.Call); ok && ccIs(tc.Common(), "strings", "TrimPrefix") && tc.Common().Args[0] == variable {
-			if pf, _ := constString(tc.Common().Args[1]); pf == "request.header." {
+	isSuffix := func(v ssa.Value) bool {
+		v = stripConv(v)
+		if al, ok := v.(*ssa.Alloc); ok {
+			if cv := cellContent(al); cv != nil {
+				v = stripConv(cv)
+			}
+		}
+		if tc, ok := v.(*ssa.Call); ok && ccIs(tc.Common(), "strings", "TrimPrefix") && tc.Common().Args[0] == variable {
+			pf, _ := constString(tc.Common().Args[1])
+			return pf == "request.header."
+		}
+		return false
+	}
+	switch x := stripConv(ReturnOperand(ret, 0)).(type) {
+	case *ssa.Call: // constructor(header)
+		okName = len(x.Common().Args) == 1 && isSuffix(x.Common().Args[0])
+	case *ssa.MakeClosure: // closure literal capturing the header name
+		for _, bnd := range x.Bindings {
+			if isSuffix(bnd) {
 				okName = true
 			}
 		}
